@@ -7,7 +7,8 @@
    is the existence of a socket in the connection's Stream data plane), links
    with their fault calls (hold, release, partition, repair and the one-way forms; a hold parks
    messages, a repair leaves them parked, a release un-parks them), scripted maturing of single
-   messages, the network tick and the loopback path.  `final (init n cap
+   messages, the network tick, the random link failure (the outcomes of the fail_rate and
+   repair_rate coins are inputs: `Coins`) and the loopback path.  `final (init n cap
    lo hi) es` is the state after an arbitrary event list: theorems quantify over
    every interleaving of binds, connects, polls, cancels (also by timeout),
    accepts, listener drops and re-binds, data-plane calls on every established
@@ -98,11 +99,35 @@ Theorem c12_refused_unowned : forall w h sid dport,
   assign_port w h <> None -> snd (do_connect w h sid (IpNobody, dport)) = RRefused.
 Proof. exact connect_unowned_refused. Qed.
 
+(* across an explicitly partitioned direction -- whatever the coins of the random link failure
+   say: they repair only directions they broke themselves *)
 Theorem c12_refused_partitioned : forall w h sid d dport l0,
   assign_port w h <> None -> d <> h -> (d <? nhosts w)%N = true ->
-  find (fun l => on_link l h d) (w_links w) = Some l0 -> cut_from l0 h = true ->
+  find (fun l => on_link l h d) (w_links w) = Some l0 -> cut_from l0 h = true -> rand_from l0 h = false ->
   snd (do_connect w h sid (IpHost d, dport)) = RRefused.
 Proof. exact connect_partitioned_refused. Qed.
+
+(* Random link failure (fail_rate).  When the coin comes up at an enqueue on a link, the
+   directions that are healthy break (a held or explicitly partitioned direction keeps its state)
+   and what is in flight on them is dropped.  So the connect whose own SYN triggers the failure
+   of its healthy direction is refused, and a SYN that was in flight (parked) on a direction
+   that breaks leaves the link and its connect is refused at the next poll: it can never be
+   accepted. *)
+Theorem c12_refused_random_break : forall w h sid d dport l0 rr cs,
+  assign_port w h <> None -> d <> h -> (d <? nhosts w)%N = true ->
+  find (fun l => on_link l h d) (w_links w) = Some l0 ->
+  l_coins l0 = (true, rr) :: cs -> cut_from l0 h = false -> held_from l0 h = false ->
+  snd (do_connect w h sid (IpHost d, dport)) = RRefused.
+Proof. exact connect_breaking_refused. Qed.
+
+Theorem c12_random_break_drops_syn : forall w s d l0 rr cs m k,
+  find (fun l => on_link l s d) (w_links w) = Some l0 ->
+  l_coins l0 = (true, rr) :: cs ->
+  In m (l_sent l0) -> m_body m = WSyn -> breaks w l0 m = true ->
+  get_conn w (m_cid m) = Some k -> k_fut k = FutPending ->
+  (exists l1, find (fun l => on_link l s d) (w_links (rand_send w s d)) = Some l1 /\ ~ In m (l_sent l1)) /\
+  snd (do_poll (rand_send w s d) (m_cid m)) = RRefused.
+Proof. exact rand_break_refuses. Qed.
 
 Theorem c12_refused_no_listener : forall w d c k hs,
   get_conn w c = Some k -> get_host w d = Some hs ->
@@ -242,6 +267,27 @@ Proof.
   split; [vm_compute; reflexivity|]. split; eexists; (split; [vm_compute; reflexivity|]); vm_compute; repeat split; reflexivity.
 Qed.
 
+(* hold -> connect (SYN parked) -> the other direction explicitly partitioned, the SYN's direction
+   repaired (healthy, SYN still parked) -> the fail_rate coin comes up at the second connect: the
+   direction 0 -> 1 breaks, the parked SYN is dropped with it, the second SYN is dropped at the
+   broken direction: both connects are refused, nothing is accepted after the release. *)
+Definition h_randfail : list ev :=
+  [Bind 1 1 IpUnspec 9000; Coins 0 1 [(false, false); (true, false)]; Hold 0 1;
+   Connect 0 1 (IpHost 1, 9000%N); PartitionOne 1 0; RepairOne 0 1;
+   Connect 0 2 (IpHost 1, 9000%N); Poll 0;
+   Release 0 1; Tick; Drain 1; Accept 1 1 100; Count 0; Count 1].
+
+Example c12_random_break_example :
+  map (fun i => nth i (snd (run (init 2 4 49152 65535) h_randfail)) RNone) [3; 6; 7; 11; 12; 13] =
+    [RPending; RRefused; RRefused; RPending; RCount 0; RCount 0] /\
+  w_accepts (final (init 2 4 49152 65535) h_randfail) = [] /\
+  (exists l, w_links (final (init 2 4 49152 65535) (firstn 6 h_randfail)) = [l] /\
+             map m_parked (l_sent l) = [true] /\ cut_from l 0 = false /\ held_from l 0 = false /\ cut_from l 1 = true).
+Proof.
+  split; [vm_compute; reflexivity|]. split; [vm_compute; reflexivity|].
+  eexists. split; [vm_compute; reflexivity|]. vm_compute. repeat split; reflexivity.
+Qed.
+
 Check c12_no_residue.
 Check c12_fifo.
 
@@ -253,6 +299,8 @@ Print Assumptions c12_accept_first_alive.
 Print Assumptions c12_accept_result.
 Print Assumptions c12_refused_unowned.
 Print Assumptions c12_refused_partitioned.
+Print Assumptions c12_refused_random_break.
+Print Assumptions c12_random_break_drops_syn.
 Print Assumptions c12_refused_no_listener.
 Print Assumptions c12_refused_listener_dropped.
 Print Assumptions c12_refused_removes_entry.
@@ -264,3 +312,4 @@ Print Assumptions c12_repair_keeps_parked.
 Print Assumptions c12_release_unparks.
 Print Assumptions c12_release_then_tick_empties.
 Print Assumptions c12_repair_release_example.
+Print Assumptions c12_random_break_example.
